@@ -52,7 +52,15 @@ PlCheck ==
                    /\ Near(R.colncyc[c], NCycFinal(R.x, R.sw, R.aref, R.colb[c], R.cut))
                    /\ Near(R.colamp[c], AmpFinal(R.x, R.sw, R.namp, R.colb[c])), "PLArrayB")
 
-Step == l = 0 /\ l' = 1 /\ tid' = tid /\ bad' = (IF R.kind = "peaks" THEN PeaksCheck ELSE PlCheck)
+\* a long record: only the laws BETWEEN results (the definition is validated on the shorter records)
+PlRelCheck ==
+  Fails(R.len_ok, "PLLength")
+  \cup Fails(NonDecreasing(R.ncyc_dec, Zero) /\ NonDecreasing(R.amp_dec, FMul(FMul(FInt(8), Eps), FAbs(R.amp_last))), "PLMonotone")
+  \cup Fails(Near(R.ainv, R.aref), "PLInverse")
+  \cup Fails(Near(R.amp_scaled, FMul(FAbs(R.alpha), R.amp_last)), "PLAmpHomogeneous")
+  \cup Fails(Near(R.ncyc_joint, R.ncyc_last), "PLCyclesJointScale")
+
+Step == l = 0 /\ l' = 1 /\ tid' = tid /\ bad' = (IF R.kind = "peaks" THEN PeaksCheck ELSE IF R.kind = "plrel" THEN PlRelCheck ELSE PlCheck)
 Finish == l = 1 /\ l' = -1 /\ UNCHANGED <<tid, bad>>
 Next == Step \/ Finish
 Spec == Init /\ [][Next]_vars
